@@ -36,6 +36,11 @@ template <class PixelT, class HistT, std::size_t... Dims> struct Cfg
     using hist = HistT;
     using dims = std::index_sequence<Dims...>; // empty: all channels in order
     static constexpr std::size_t ndims = sizeof...(Dims);
+    static constexpr bool planar = false;
+};
+template <class PixelT, class HistT, std::size_t... Dims> struct CfgPlanar : Cfg<PixelT, HistT, Dims...>
+{
+    static constexpr bool planar = true;
 };
 using Cfgs = mp::mp_list<
     Cfg<gil::gray8_pixel_t, gil::histogram<int>>,
@@ -48,10 +53,12 @@ using Cfgs = mp::mp_list<
     Cfg<gil::rgb8_pixel_t, gil::histogram<int>, 1>,
     Cfg<gil::gray8_pixel_t, gil::histogram<unsigned char>>,
     Cfg<gil::rgb16s_pixel_t, gil::histogram<short, int, long>>,
-    Cfg<gil::rgba8_pixel_t, gil::histogram<unsigned char, short>, 3, 1>>;
+    Cfg<gil::rgba8_pixel_t, gil::histogram<unsigned char, short>, 3, 1>,
+    CfgPlanar<gil::rgb8_pixel_t, gil::histogram<int, int, int>>,
+    CfgPlanar<gil::rgb16s_pixel_t, gil::histogram<int, int>, 0, 2>>;
 constexpr int NCFG = static_cast<int>(mp::mp_size<Cfgs>::value);
 static const char* cfg_name[NCFG] = {"gray8->hist<int>", "gray16->hist<int>", "gray8s->hist<int>", "rgb8->hist<int,int,int>", "rgb8<2,0>->hist<int,int>", "rgba8->hist<int x4>", "gray16s->hist<short>", "rgb8<1>->hist<int>",
-                                     "gray8->hist<uchar>", "rgb16s->hist<short,int,long>", "rgba8<3,1>->hist<uchar,short>"};
+                                     "gray8->hist<uchar>", "rgb16s->hist<short,int,long>", "rgba8<3,1>->hist<uchar,short>", "rgb8 planar->hist<int,int,int>", "rgb16s planar<0,2>->hist<int,int>"};
 
 template <class C> std::vector<int> selected_channels()
 {
@@ -95,7 +102,7 @@ static double total(Model const& m) { double s = 0; for (auto const& kv : m) s +
 // ------------------------------------------------------------------------------------------------ one fill step
 struct Step { i64 w, h, bw; bool accumulate, dense, mask, limits, defaults; std::uint64_t seed; i64 lo[4], hi[4]; int range; };
 
-template <class C> static void fill_view(typename gil::image<typename C::pixel>::view_t const& v, Step const& s)
+template <class C, class View> static void fill_view(View const& v, Step const& s)
 {
     using P = typename C::pixel;
     verif::SplitMix r(s.seed);
@@ -128,8 +135,10 @@ template <class C> static void apply_step(typename C::hist& hist, Model& model, 
     using H = typename C::hist;
     using KeyT = typename H::key_type;
     constexpr std::size_t HD = std::tuple_size<KeyT>::value;
-    gil::image<P> img(s.w, s.h);
+    gil::image<P, C::planar> img(s.w, s.h);
     fill_view<C>(gil::view(img), s);
+    gil::image<P, C::planar> const snapshot(img);
+    bool through_mutable_view = (s.seed & 4) != 0; // the histogram is filled from view(img) or const_view(img)
     auto sel = selected_channels<C>();
     std::vector<std::vector<bool>> mask;
     verif::SplitMix r(s.seed ^ 0xabc);
@@ -147,8 +156,12 @@ template <class C> static void apply_step(typename C::hist& hist, Model& model, 
     bool enforce = s.limits && s.bw == 1;
     bool dense = s.dense && HD == 1 && s.limits; // dense pre-fill exists for 1-D keys; run inside an explicit box
     // ---- library
-    if (s.defaults) call_fill<C>(typename C::dims(), gil::const_view(img), hist, static_cast<std::size_t>(s.bw), s.accumulate);
-    else call_fill<C>(typename C::dims(), gil::const_view(img), hist, static_cast<std::size_t>(s.bw), s.accumulate, !dense, s.mask, mask, lower, upper, enforce);
+    auto call = [&](auto const& srcv) {
+        if (s.defaults) call_fill<C>(typename C::dims(), srcv, hist, static_cast<std::size_t>(s.bw), s.accumulate);
+        else call_fill<C>(typename C::dims(), srcv, hist, static_cast<std::size_t>(s.bw), s.accumulate, !dense, s.mask, mask, lower, upper, enforce);
+    };
+    if (through_mutable_view) call(gil::view(img)); else call(gil::const_view(img));
+    VCHECK(img == snapshot, what, ": filling the histogram changed the pixels of the source view");
     // ---- model
     if (!s.accumulate) model.clear();
     if (dense && !s.defaults)
@@ -454,7 +467,7 @@ void verif_replay(Case const& c)
 void verif_run(verif::Args const& a, verif::Evidence& ev)
 {
     bool th = a.thorough();
-    ev.rule = "history: one of 11 (view type, histogram key types, channel selection) configurations (1-4 channels, 8/16 bit, signed and unsigned, key types uchar/short/int/long), 1..3 consecutive fill_histogram calls on the same "
+    ev.rule = "history: one of 13 (view type, histogram key types, channel selection) configurations (two of them planar) (1-4 channels, 8/16 bit, signed and unsigned, key types uchar/short/int/long), 1..3 consecutive fill_histogram calls on the same "
               "histogram, each with its own view (0..7 x 0..7, values clustered / at the range ends / whole range), bin width 1..9, accumulate or replace, sparse or dense (1-D, inside a box), random mask, limit box, or defaulted "
               "arguments -> after every call every bin equals the model's count, sum() equals the number of counted pixels; after the last call cumulative_histogram, sub_histogram<axes>(), sub_histogram<axis>(range), normalize, "
               "sorted/min/max keys against their definitions. std: vector / array<256> / map fillers and their cumulative versions against the sparse histogram of the gray view, two fills. "
